@@ -516,6 +516,7 @@ pub fn execute(p: &RtProgram, prop: &str) -> RunInfo {
             }
         }
         "C10" => check_c10(p, &insts, &roots, start, &model, &real, &mut info),
+        "C01" => check_c01_rt(p, &insts, &roots, start, &real, &mut info),
         "C11" => check_c11(p, &insts, &roots, start, &real, &mut info),
         _ => {}
     }
@@ -751,6 +752,90 @@ fn check_c03(model: &Model, real: &RealRun, info: &mut RunInfo) {
         }
     }
     info.nontrivial = tie_group;
+}
+
+/// C01 seen through the runtime (`Runtime::add_event` + handler order): the run is paused at limits, events are added
+/// from outside between the current time and the pending events, and resumed. Every scheduled event is handled exactly
+/// once, in non-decreasing order of the timestamps they were scheduled with. (How far a step goes, the clock and the
+/// order inside a group of equal timestamps are other properties' statements.)
+fn check_c01_rt(p: &RtProgram, insts: &[Inst], roots: &[usize], start: u64, unint: &RealRun, info: &mut RunInfo) {
+    if unint.escaped_panic.is_some() || !unint.rejected.is_empty() {
+        return;
+    }
+    let tcap = p.t_ns.max(1);
+    let res = std::panic::catch_unwind(std::panic::AssertUnwindSafe(|| {
+        let mut rt = make_runtime(p, false);
+        rt.start();
+        let mut ext_list: Vec<(usize, u64)> = Vec::new();
+        for step in &p.steps {
+            let before: Vec<(usize, u64)> = rt.app.log.handled.clone();
+            let pend = pending_now(&before, &ext_list, insts, roots);
+            let reported = before.last().map_or(start, |h| static_time(h.0, insts, &ext_list));
+            let next = pend.iter().map(|p| p.1).min();
+            match step {
+                Step::N { k } => {
+                    rt.dispatch_n_events((*k).min(1000) as usize);
+                }
+                Step::Until { kind, a } => {
+                    let t = match (kind % 5, next) {
+                        (0, Some(nt)) => nt,
+                        (1, Some(nt)) => nt.saturating_sub(1).max(reported),
+                        (2, Some(nt)) => nt + cap_delta(*a, tcap),
+                        (3, _) => reported.saturating_sub(*a % 1000),
+                        _ => reported + cap_delta(*a, tcap),
+                    };
+                    rt.dispatch_events_until(st(t));
+                }
+                Step::Add { kind, a } => {
+                    let time = match (kind % 4, next) {
+                        (0, _) => reported,
+                        (1, Some(nt)) if nt > reported + 1 => reported + 1 + a % (nt - reported - 1),
+                        (2, Some(nt)) => nt,
+                        _ => reported + cap_delta(*a, tcap),
+                    };
+                    let uid = EXT_BASE + ext_list.len();
+                    rt.add_event(Ev { uid }, st(time));
+                    ext_list.push((uid, time));
+                }
+            }
+        }
+        rt.dispatch_all();
+        let handled = rt.app.log.handled.clone();
+        let remaining = rt.num_events_remaining();
+        let _ = rt.finish();
+        (handled, ext_list, remaining)
+    }));
+    let Ok((handled, ext_list, remaining)) = res else {
+        let _ = crate::take_panic(Box::new(())); // a panicking step or add is C10's / C02's statement
+        crate::clear_panic();
+        return;
+    };
+    info.probe_n("external_add_while_paused", ext_list.len() as u64);
+    // non-decreasing order of the scheduled timestamps
+    let mut last = 0u64;
+    for (i, (uid, _)) in handled.iter().enumerate() {
+        let t = static_time(*uid, insts, &ext_list);
+        if t < last {
+            info.violate(Violation::new("C01", "rt-time-order", format!(
+                "runtime driven in steps with events added while paused: event {uid} (scheduled for {t} ns) was handled at position {i}, after an event scheduled for {last} ns")));
+            return;
+        }
+        last = t;
+    }
+    // exactly once, nothing lost
+    let mut expect: Vec<usize> = unint.handled.iter().map(|h| h.0).chain(ext_list.iter().map(|e| e.0)).collect();
+    let mut got: Vec<usize> = handled.iter().map(|h| h.0).collect();
+    expect.sort_unstable();
+    got.sort_unstable();
+    if got != expect || remaining != 0 {
+        let dup = got.windows(2).find(|w| w[0] == w[1]).map(|w| w[0]);
+        let missing: Vec<usize> = expect.iter().copied().filter(|u| !got.contains(u)).take(3).collect();
+        info.violate(Violation::new("C01", "rt-exactly-once", format!(
+            "runtime driven in steps with events added while paused: {} events handled, {} scheduled; handled twice: {dup:?}; never handled: {missing:?}; {remaining} left in the event set after dispatch_all",
+            got.len(), expect.len())));
+        return;
+    }
+    info.nontrivial = !ext_list.is_empty();
 }
 
 /// The tie rule when the run is driven in steps and events are added from outside while it is paused: the reference
@@ -1274,9 +1359,9 @@ pub fn generate(prop: &str, rng: &mut Rng, tier: Tier) -> RtProgram {
             });
         }
     }
-    if prop == "C10" {
+    if prop == "C10" || prop == "C01" {
         let nsteps = 1 + rng.small(25) as usize;
-        let with_adds = rng.chance(1, 2);
+        let with_adds = prop == "C01" || rng.chance(1, 2);
         for _ in 0..nsteps {
             let w_add = if with_adds { 3 } else { 0 };
             prog.steps.push(match rng.weighted(&[5, 4, w_add]) {
